@@ -15,7 +15,7 @@ functions defined in /repo are analysed by abstract inlining in the caller's
 context; loops by Kleene iteration with threshold widening.  Nothing here runs
 cctz code: the interpreter walks the type-checked AST over abstract values."""
 import re
-from .frontend import kids, walk, qn, qtype, dtype, pos, AnalysisBroken, body_of, params_of
+from .frontend import kids, walk, qn, qtype, dtype, pos, AnalysisBroken, body_of, params_of, ancestors
 from .expr import (peel, callee, call_args, Folder, int_type, type_range, cdiv, cmod, split_params,
                    CAST_KINDS, EXPL_CASTS)
 from .cfg import CFG
@@ -1029,6 +1029,11 @@ class AI(object):
                 if vv is UNINIT or vv is MAYBE_UNINIT:
                     self.obs.uninit_read(self, e, l, vv is MAYBE_UNINIT, s)
                     vv = None
+                if vv is None:
+                    cv_ = self._const_init_value(l, u)
+                    if cv_ is not None:
+                        out.append((cv_, s))
+                        continue
                 if vv is None or vv is TOP:
                     av = self.assume_member(e)
                     vv = av if av is not None else self.top_of(t)
@@ -1196,6 +1201,13 @@ class AI(object):
         if not isinstance(pv, Ptr) or pv.target is None:
             return self.top_of(t)
         tg = pv.target
+        if s.rel and pv.off is not None and pv.off.const() is not None and (t or '').strip() == 'const char':
+            cv_ = self._cell_get(s, tg, pv.off.const())
+            if cv_ is not None:
+                tv_ = self.top_of(t)
+                mm_ = cv_.meet(tv_) if isinstance(tv_, Int) else cv_
+                if mm_ is not None:
+                    return mm_
         if tg and tg[0] == 'str':
             return self._str_chars(tg, pv.off, t)
         if self._record(u, (t or '').replace('const ', '').strip()) is not None:
@@ -1249,6 +1261,48 @@ class AI(object):
             else:
                 return None
         return vals if isinstance(vals, list) else None
+
+    def _const_init_value(self, loc, u):
+        """Value of a scalar leaf of a constant object with static storage (a table of records, say), read from its
+        initialiser: loc = (decl id, '[i]' | field name, ...). None when it is not such a leaf."""
+        if loc is None or len(loc) < 2 or not isinstance(loc[0], str):
+            return None
+        d = u.by_id.get(loc[0])
+        if d is None or d.get('kind') != 'VarDecl' or 'init' not in d or not kids(d):
+            return None
+        t = qtype(d)
+        if not (t.startswith('const ') or d.get('constexpr')):
+            return None
+        local_nonstatic = any(a.get('kind') in ('FunctionDecl', 'CXXMethodDecl', 'CXXConstructorDecl') for a in ancestors(d)) and \
+            d.get('storageClass') != 'static'
+        if local_nonstatic:
+            return None
+        x = peel(kids(d)[-1], explicit=False)
+        for step in loc[1:]:
+            while x is not None and x.get('kind') in ('ExprWithCleanups', 'MaterializeTemporaryExpr', 'CXXBindTemporaryExpr', 'ConstantExpr'):
+                x = peel(kids(x)[0], explicit=False)
+            if x is None or x.get('kind') != 'InitListExpr' or not isinstance(step, str):
+                return None
+            ks = kids(x)
+            m = re.match(r'^\[(\d+)\]$', step)
+            if m:
+                if x.get('array_filler') or int(m.group(1)) >= len(ks):
+                    return None
+                x = peel(ks[int(m.group(1))], explicit=False)
+                continue
+            if step.startswith('['):
+                return None
+            rec = self._record(u, (dtype(x) or qtype(x) or ''))
+            if rec is None:
+                return None
+            flds = [y.get('name') for y in kids(rec) if y.get('kind') == 'FieldDecl']
+            if step not in flds or len(ks) != len(flds) or any(y.get('kind') == 'CXXRecordDecl' and y.get('tagUsed') == 'union' for y in [rec]):
+                return None
+            x = peel(ks[flds.index(step)], explicit=False)
+        if x is None or x.get('kind') in ('InitListExpr', 'ImplicitValueInitExpr'):
+            return I(0) if x is not None and x.get('kind') == 'ImplicitValueInitExpr' and int_type(dtype(x) or '') else None
+        v = self.folder(u).fold(x)
+        return I(v) if v is not None else None
 
     def _array_extent(self, loc, u):
         if loc is None:
@@ -1316,6 +1370,13 @@ class AI(object):
                 v = s.mem.get(pv.target + ('[%d]' % c,))
                 if isinstance(v, (Int, Ptr)):
                     return v
+                if s.rel and (t or '').strip() == 'const char':
+                    cv_ = self._cell_get(s, pv.target, c)
+                    if cv_ is not None:
+                        tv_ = self.top_of(t)
+                        mm_ = cv_.meet(tv_) if isinstance(tv_, Int) else cv_
+                        if mm_ is not None:
+                            return mm_
             arr = self._const_array(pv.target, u)
             if arr is not None:
                 vals = [x for i, x in enumerate(arr) if pv.off.lo <= i <= pv.off.hi and isinstance(x, (int, tuple))]
@@ -2281,6 +2342,10 @@ class AI(object):
             return self._refine_cmp(x, x.get('opcode'), kids(x)[0], kids(x)[1], st, truth, u)
         if k == 'CXXBoolLiteralExpr':
             return [st] if bool(x.get('value')) == truth else []
+        if k == 'CallExpr':
+            r_ = self._refine_predicate_call(x, st, truth, u)
+            if r_ is not None:
+                return r_
         # generic: evaluate and test
         out = []
         simple = peel(x, explicit=False)
@@ -2342,6 +2407,12 @@ class AI(object):
                                 if lo <= hi:
                                     s2.mem[loc_] = Int(lo, hi)
                                     self._refine_alias(loc_, s2.mem[loc_], s2, u)
+                # a character of constant data compared: remember what the outcome says about that character
+                for (side, old_, new_, l_) in ((a, va, na, la), (b, vb, nb, lb)):
+                    if l_ is None and new_ is not old_ and isinstance(new_, Int):
+                        cell_ = self._char_cell(side, s2, u)
+                        if cell_ is not None:
+                            self._cell_set(s2, cell_, new_)
                 # relational side table for  a > b  => a - b >= 1
                 if la is not None and lb is not None and isinstance(va, Int) and isinstance(vb, Int):
                     if op == '>':
@@ -2352,6 +2423,90 @@ class AI(object):
                         s2.rel[(lb, la)] = max(s2.rel.get((lb, la), -INF), 1)
                     elif op == '<=':
                         s2.rel[(lb, la)] = max(s2.rel.get((lb, la), -INF), 0)
+                out.append(s2)
+        return out
+
+    # -- cells of constant character data reached through a pointer with a known offset: what tests have established
+    #    about the character is kept in St.rel (intersection at joins, the weaker bound wins):
+    #    ('cl', target, c) -> lo   and   ('ch', target, c) -> -hi
+    def _cell_get(self, st, tg, c):
+        lo, nh = st.rel.get(('cl', tg, c)), st.rel.get(('ch', tg, c))
+        if lo is None and nh is None:
+            return None
+        return Int(lo if lo is not None else -INF, -nh if nh is not None else INF)
+
+    def _cell_set(self, st, cell, v):
+        (tg, c) = cell
+        if v.lo != -INF:
+            st.rel[('cl', tg, c)] = max(st.rel.get(('cl', tg, c), -INF), v.lo)
+        if v.hi != INF:
+            st.rel[('ch', tg, c)] = max(st.rel.get(('ch', tg, c), -INF), -v.hi)
+
+    def _char_cell(self, e, s, u):
+        """(target, offset) when e reads one character of constant data through a pointer whose target and offset are known."""
+        x = peel(e)
+        if x is None or (dtype(x) or '').strip() != 'const char':
+            return None
+        if any(y.get('kind') in ('CallExpr', 'CXXMemberCallExpr', 'CompoundAssignOperator') or
+               (y.get('kind') == 'UnaryOperator' and y.get('opcode') in ('++', '--')) or
+               (y.get('kind') == 'BinaryOperator' and y.get('opcode') == '=') for y in walk(x)):
+            return None
+        pv = None
+        if x.get('kind') == 'ArraySubscriptExpr':
+            r = [(a_, b_) for (a_, s1) in self.eval(kids(x)[0], s.copy(), u) for (b_, _s2) in self.eval(kids(x)[1], s1, u)]
+            if len(r) == 1 and isinstance(r[0][0], Ptr) and isinstance(r[0][1], Int) and r[0][0].off is not None:
+                pv = Ptr(r[0][0].null, r[0][0].target, self.add(r[0][0].off, r[0][1]))
+        elif x.get('kind') == 'UnaryOperator' and x.get('opcode') == '*':
+            r = self.eval(kids(x)[0], s.copy(), u)
+            if len(r) == 1 and isinstance(r[0][0], Ptr):
+                pv = r[0][0]
+        if pv is None or pv.target is None or pv.off is None or pv.off.const() is None or pv.target[0] == 'str':
+            return None
+        return (pv.target, pv.off.const())
+
+    def _refine_predicate_call(self, x, st, truth, u):
+        """Condition `Pred(arg..)` where Pred is a library function whose body is `return <test of its value parameters>;`:
+        the states in which the test, read with the arguments in place of the parameters, has the given outcome.  What the
+        test establishes about a parameter is carried back to the character cell the argument read.  None: not such a call."""
+        c = callee(x)
+        if not c or c[0] != 'fn' or not c[1].get('_qn'):
+            return None
+        tg = self.G.resolve_decl(c[1])
+        if len(tg) != 1 or tg[0] not in self.G.defs:
+            return None
+        uu, ff = self.G.defs[tg[0]]
+        body = body_of(ff)
+        sts = [y for y in kids(body)] if body is not None else []
+        if len(sts) != 1 or sts[0].get('kind') != 'ReturnStmt' or not kids(sts[0]):
+            return None
+        ret = kids(sts[0])[0]
+        ps = params_of(ff)
+        args = call_args(x)
+        if len(ps) != len(args) or not all(int_type((dtype(p_) or qtype(p_) or '').replace('const ', '')) for p_ in ps):
+            return None
+        pid = set(p_['id'] for p_ in ps)
+        for y in walk(ret):
+            k_ = y.get('kind')
+            if k_ in ('CallExpr', 'CXXMemberCallExpr', 'CXXOperatorCallExpr', 'CompoundAssignOperator', 'LambdaExpr') or \
+                    (k_ == 'UnaryOperator' and y.get('opcode') in ('++', '--', '&')) or (k_ == 'BinaryOperator' and y.get('opcode') == '='):
+                return None
+            if k_ == 'DeclRefExpr' and (y.get('referencedDecl') or {}).get('kind') in ('VarDecl', 'ParmVarDecl') and \
+                    (y.get('referencedDecl') or {}).get('id') not in pid and self.folder(uu).fold(y) is None:
+                return None
+        cur = [(st, [])]
+        for a in args:
+            cur = [(s2, vs + [(v, self._char_cell(a, s2, u))]) for (s_, vs) in cur for (v, s2) in self.eval(a, s_, u)]
+        out = []
+        for (s_, vs) in cur:
+            for p_, (v, cell) in zip(ps, vs):
+                if not isinstance(v, Int):
+                    v = self.top_of(dtype(p_) or qtype(p_))
+                s_.mem[(p_['id'],)] = v
+            for s2 in self.refine(ret, s_, truth, uu):
+                for p_, (v, cell) in zip(ps, vs):
+                    nv = s2.mem.pop((p_['id'],), None)
+                    if cell is not None and isinstance(nv, Int):
+                        self._cell_set(s2, cell, nv)
                 out.append(s2)
         return out
 
